@@ -176,13 +176,13 @@ Print Assumptions C09_stft_bad_key_TypeError.
    every case) the model delivers it: the blocks (ola=None), the blocks and options a user overlap-add
    receives, the samples overlap_add.list produces.  For all stage functions and window objects. *)
 Theorem C09_stft_model_meets_promise : forall (F W : Type) (f1 : F -> list Qc -> list Qc)
-    (f2 : F -> list Qc -> nat -> list Qc) (wsem : W -> wndarg) gc (layers : list (kwl F W)) func sig,
-  match stft_promise f1 f2 wsem gc layers func sig with
+    (f2 : F -> list Qc -> nat -> list Qc) (wsem : W -> wndarg) (falsy : F -> bool) gc (layers : list (kwl F W)) func sig,
+  match stft_promise f1 f2 wsem falsy gc layers func sig with
   | PSilent => True
-  | PBlocks b => stft_model f1 f2 wsem gc layers func sig = SBlocks b None
-  | PUser id b => exists op, stft_model f1 f2 wsem gc layers func sig = SUser id op b None /\
+  | PBlocks b => stft_model f1 f2 wsem falsy gc layers func sig = SBlocks b None
+  | PUser id b => exists op, stft_model f1 f2 wsem falsy gc layers func sig = SUser id op b None /\
                              forall q, dict_get op q = spec_ola_param layers q
-  | PSamples out => stft_model f1 f2 wsem gc layers func sig = SSamples out None
+  | PSamples out => stft_model f1 f2 wsem falsy gc layers func sig = SSamples out None
   end.
 Proof. exact (@stft_model_meets_promise). Qed.
 Print Assumptions C09_stft_model_meets_promise.
@@ -190,8 +190,8 @@ Print Assumptions C09_stft_model_meets_promise.
 (* histories: one partial object used as a factory several times, one processor called several times: the model
    of each call depends on the layers of its own chain only, so every call of any history meets its promise *)
 Theorem C09_stft_calls_independent : forall (F W : Type) (f1 : F -> list Qc -> list Qc)
-    (f2 : F -> list Qc -> nat -> list Qc) (wsem : W -> wndarg) gc (calls : list (list (kwl F W) * F * list Qc)),
-  Forall (call_ok f1 f2 wsem gc) calls.
+    (f2 : F -> list Qc -> nat -> list Qc) (wsem : W -> wndarg) (falsy : F -> bool) gc (calls : list (list (kwl F W) * F * list Qc)),
+  Forall (call_ok f1 f2 wsem falsy gc) calls.
 Proof. exact (@stft_calls_independent). Qed.
 Print Assumptions C09_stft_calls_independent.
 
@@ -199,7 +199,7 @@ Print Assumptions C09_stft_calls_independent.
    window whose hop-shifted copies sum to one and no normalisation, in any calling style:
    the output is the input on every sample covered by all of its blocks *)
 Theorem C09_stft_identity_reconstructs : forall (F W : Type) (f1 : F -> list Qc -> list Qc)
-    (f2 : F -> list Qc -> nat -> list Qc) (wsem : W -> wndarg) gc (layers : list (kwl F W)) func
+    (f2 : F -> list Qc -> nat -> list Qc) (wsem : W -> wndarg) (falsy : F -> bool) gc (layers : list (kwl F W)) func
     (sig : list Qc) size hop Wd w,
   (1 <= hop <= size)%nat ->
   spec_lookup layers "size" = Some (VNat size) ->
@@ -214,7 +214,7 @@ Theorem C09_stft_identity_reconstructs : forall (F W : Type) (f1 : F -> list Qc 
   spec_lookup layers "ola_normalize" = Some (VBool false) ->
   (forall x, f1 func x = x) ->
   exists out,
-    stft_model f1 f2 wsem gc layers func sig = SSamples out None /\
+    stft_model f1 f2 wsem falsy gc layers func sig = SSamples out None /\
     length out = (length (blocks_model size hop 0%Qc sig) * hop + size - hop)%nat /\
     forall n, (size - hop <= n < length (blocks_model size hop 0%Qc sig) * hop)%nat ->
               nth n out 0%Qc = nth n sig 0%Qc.
@@ -260,18 +260,18 @@ Definition C09_ex_layers : list ckwl :=
    []].
 Definition C09_ex_sig : list Qc := [qc 1 1; qc 2 1; qc 3 1; qc 4 1; qc 5 1].
 Example C09_example_stft :
-  match stft_model f1 f2 wsem (qc 1 2) C09_ex_layers FId C09_ex_sig with
+  match stft_model f1 f2 wsem falsy (qc 1 2) C09_ex_layers FId C09_ex_sig with
   | SSamples out None =>
       length out = 6%nat /\ forallb (fun n => Qc_eqb (nth n out 0%Qc) (nth n C09_ex_sig 0%Qc)) [2; 3]%nat = true
   | _ => False
   end /\
-  match stft_promise f1 f2 wsem (qc 1 2) C09_ex_layers FId C09_ex_sig with PSamples _ => True | _ => False end.
+  match stft_promise f1 f2 wsem falsy (qc 1 2) C09_ex_layers FId C09_ex_sig with PSamples _ => True | _ => False end.
 Proof. vm_compute. split; [split; reflexivity|exact I]. Qed.
 Print Assumptions C09_example_stft.
 
 (* routing seen by a user overlap-add: ola_size replaces size, ola_zz arrives as zz, the later hop wins *)
 Example C09_example_routing :
-  match stft_model f1 f2 wsem (qc 1 2)
+  match stft_model f1 f2 wsem falsy (qc 1 2)
           [[("size", VNat 3); ("hop", VNat 3); ("ola", VOla (OlaUser 1)); ("ola_zz", VOpaque 5)];
            [("hop", VNat 2); ("transform", VNone); ("inverse_transform", VNone); ("before", VNone);
             ("after", VNone); ("ola_size", VNat 9); ("wnd", VWnd (DIter [qc 1 1; qc 2 1; qc 3 1]))]]
@@ -286,10 +286,10 @@ Print Assumptions C09_example_routing.
 
 (* the three ways of raising *)
 Example C09_example_errors :
-  stft_model f1 f2 wsem (qc 1 2) [[("hop", VNat 2)]; []] FId [] = SCallRaise TypeError /\
-  stft_model f1 f2 wsem (qc 1 2) [[("size", VNat 2)]; [("hop", VNat 3)]] FId [] = SCallRaise ValueError /\
-  stft_model f1 f2 wsem (qc 1 2) [[("size", VNat 2); ("foo", VNone)]; []] FId [] = SCallRaise TypeError /\
-  stft_model f1 f2 wsem (qc 1 2) [[("size", VNat 2); ("ola", VNone)]; [("ola_wnd", VNone)]] FId [] = SCallRaise TypeError.
+  stft_model f1 f2 wsem falsy (qc 1 2) [[("hop", VNat 2)]; []] FId [] = SCallRaise TypeError /\
+  stft_model f1 f2 wsem falsy (qc 1 2) [[("size", VNat 2)]; [("hop", VNat 3)]] FId [] = SCallRaise ValueError /\
+  stft_model f1 f2 wsem falsy (qc 1 2) [[("size", VNat 2); ("foo", VNone)]; []] FId [] = SCallRaise TypeError /\
+  stft_model f1 f2 wsem falsy (qc 1 2) [[("size", VNat 2); ("ola", VNone)]; [("ola_wnd", VNone)]] FId [] = SCallRaise TypeError.
 Proof. vm_compute. repeat split. Qed.
 Print Assumptions C09_example_errors.
 
